@@ -32,21 +32,24 @@ from mc import x_circ as X
 PROPERTY = "C26"
 LEVEL = "exploration"
 TECHNIQUE = "bounded exhaustive circuit enumeration over a kernel-derived gate alphabet vs. independent tensordot state-vector reference"
-LEVEL_TEXT = ("Every word of length <=2 (thorough 3) over a ~90-letter alphabet with one letter per apply_operation kernel and "
-              "wire-position class on 3 wires (x 9 state preparations), every measurement list of length <=2 over 62 measurement "
-              "letters x 5 wire labellings x 4 device wire orders, every letter on 12/13 (thorough 10/14) wires, and the "
-              "autograd/jax/torch interfaces are executed through qp.execute on default.qubit and compared at 1e-9 with a plain "
-              "numpy reference.")
+LEVEL_TEXT = ("Every word of length <=2 (thorough 3) over an 81-letter alphabet with one letter per apply_operation kernel and "
+              "wire-position class on 3 wires (x 9 state preparations), every measurement list of length <=2 over 63 measurement "
+              "letters x 5 wire labellings x 4 device wire orders, every letter plus 8 many-wire letters on 12/13 (thorough 10/14) "
+              "wires, and the autograd/jax/torch interfaces are executed through qp.execute on default.qubit and compared at 1e-9 "
+              "with a plain numpy reference.")
 LEVEL_NOTE = ("Trusted base: mc.refgates closed forms, mc.refsim tensordot, fixed token matrices in mc.x_circ. Not decided: circuits "
               "longer than the bound, >14 wires, ParametrizedEvolution (ODE solver, approximate by construction), mid-circuit "
-              "measurement kernels (C29-C32), finite shots, float32 inputs; jax runs with jax_enable_x64.")
+              "measurement kernels (C29-C32), finite shots, float32 inputs, operations mixing different broadcast sizes; jax runs "
+              "with jax_enable_x64; density-matrix based measurements (purity, entropies) only up to 13 wires (memory). Five genuine "
+              "defects are recorded in known_findings/C26.json.")
 DESIGN_REF = "5.5 C26"
 START = "fork"
 PARALLEL = True
 RULE = ("complete enumeration: (prep x words<=L) + (state x measurement lists<=2 x labels x device wires) + (letters x labels x "
         "device wires) + wide family + interface family; non-trivial = reference state is not the initial |0..0> state")
 ASSUMPTIONS = ["jax is run with jax_enable_x64=True (the property is stated for float64)",
-               "state()/probs() without device wires are ordered by tape.wires (operations first, then measurements)"]
+               "state()/probs() on a device without declared wires follow the tape's standard wire order documented in "
+               "QuantumScript.map_to_standard_wires (natural integer order if the labels are 0..k-1, else order of first appearance)"]
 
 G1, G2, G3 = X.G1, X.G2, X.G3
 ATOL = 1e-9
